@@ -301,6 +301,37 @@ impl Graph {
         seen
     }
 
+    /// descendants of `x` along paths that do not pass through `blocked` nodes
+    pub fn descendants_avoiding(&self, x: &TxId, blocked: &BTreeSet<TxId>) -> BTreeSet<TxId> {
+        let mut seen = BTreeSet::new();
+        let mut stack: Vec<TxId> = vec![*x];
+        while let Some(n) = stack.pop() {
+            if let Some(c) = self.children.get(&n) {
+                for d in c {
+                    if !blocked.contains(d) && seen.insert(*d) {
+                        stack.push(*d);
+                    }
+                }
+            }
+        }
+        seen
+    }
+
+    pub fn ancestors(&self, x: &TxId) -> BTreeSet<TxId> {
+        let mut seen = BTreeSet::new();
+        let mut stack: Vec<TxId> = vec![*x];
+        while let Some(n) = stack.pop() {
+            if let Some(c) = self.parents.get(&n) {
+                for d in c {
+                    if seen.insert(*d) {
+                        stack.push(*d);
+                    }
+                }
+            }
+        }
+        seen
+    }
+
     pub fn edge_count(&self) -> usize {
         self.children.values().map(|c| c.len()).sum()
     }
